@@ -817,6 +817,12 @@ class Walker:
       if isinstance(t.slice, ast.Slice):
         idx = self.ev_Subscript(ast.Subscript(value=t.value, slice=t.slice, ctx=ast.Load()), st)
         idx = P("lit", "slice")
+        bounds = [as_poly(self.ev(x, st)) if x is not None else None for x in (t.slice.lower, t.slice.upper, t.slice.step)]
+        self.emit("store", node, st, base=base, index=idx, value=v, target=t, slice_lo=bounds[0], slice_hi=bounds[1], slice_step=bounds[2])
+        x = t.value
+        if isinstance(x, ast.Name):
+          st.env[x.id] = mk("upd", as_poly(base), as_poly(idx), as_poly(v))
+        return
       else:
         idx = self.ev(t.slice, st)
       self.emit("store", node, st, base=base, index=idx, value=v, target=t)
